@@ -44,7 +44,19 @@ func ParseDocs(c ParseDocsConfig) ([]config.RawConverter, error) {
 	if c.BuildTags != "" {
 		loadCfg.BuildFlags = append(loadCfg.BuildFlags, "-tags", c.BuildTags)
 	}
-	pkgs, err := packages.Load(loadCfg, c.PackagePattern...)
+	// which package an error that involves several packages (an import cycle) is reported
+	// for depends on the order the go command visits the patterns in: load them in a fixed
+	// order, each once.
+	patterns := make([]string, 0, len(c.PackagePattern))
+	seen := map[string]struct{}{}
+	for _, pattern := range c.PackagePattern {
+		if _, ok := seen[pattern]; !ok {
+			seen[pattern] = struct{}{}
+			patterns = append(patterns, pattern)
+		}
+	}
+	sort.Strings(patterns)
+	pkgs, err := packages.Load(loadCfg, patterns...)
 	if err != nil {
 		return nil, err
 	}
